@@ -7,6 +7,6 @@ S=$(mktemp -d /tmp/lz4rs.XXXXXX); mkdir -p $S/repo $S/verif/evidence/replay
 cp $V/known_findings.json $S/verif/
 (cd $S/repo && git apply "$src/patch.diff") || { echo APPLY-FAILED; rm -rf $S; exit 1; }
 for id in "$@"; do
-  GOFLAGS=-mod=mod GOPROXY=off GOSUMDB=off GOTOOLCHAIN=local GOWORK=off $V/bin/lz4verif check -repo $S/repo -verif $S/verif $id quick 2>&1 | grep -E "^(VIOLATED|UNDECIDED|CHECKER-TROUBLE|    )" | cut -c1-${W:-700}
+  GOFLAGS=-mod=mod GOPROXY=off GOSUMDB=off GOTOOLCHAIN=local GOWORK=off ${BIN:-$V/bin/lz4verif} check -repo $S/repo -verif $S/verif $id quick 2>&1 | grep -E "^(VIOLATED|UNDECIDED|CHECKER-TROUBLE|    )" | cut -c1-${W:-700}
 done
 [ -n "${KEEP:-}" ] && echo "kept $S" || rm -rf $S
